@@ -10,7 +10,7 @@ use liwe::database::Database;
 use liwe::graph::{Graph, GraphContext};
 use liwe::model::config::MarkdownOptions;
 use liwe::model::Key;
-use lsp_types::{SymbolKind, WorkspaceSymbolParams, WorkspaceSymbolResponse};
+use lsp_types::{DocumentSymbolParams, SymbolKind, TextDocumentIdentifier, WorkspaceSymbolParams, WorkspaceSymbolResponse};
 use serde_json::json;
 use std::collections::{BTreeMap, HashMap, HashSet};
 
@@ -161,6 +161,33 @@ fn real_chains(g: &Graph) -> Vec<String> {
     out
 }
 
+/// the outline the editor shows for a note (`textDocument/documentSymbol`) is about that note: it does not change when
+/// the library grows by notes that neither include it nor are included by it (150 extra outline paths with one-letter
+/// headings, which outrank everything in the search order)
+pub fn document_symbols_ignore_unrelated_notes(lib: &[(String, String)]) -> Option<String> {
+    let symbols = |st: &HashMap<String, String>, key: &str| -> Option<Vec<String>> {
+        let server = dump::catch(|| crate::act::with_via(crate::act::Via::Import, || c01::server_for(st, ""))).ok()?;
+        let syms = dump::catch(|| {
+            server.handle_document_symbols(DocumentSymbolParams { text_document: TextDocumentIdentifier { uri: c01::uri_for(key) }, work_done_progress_params: Default::default(), partial_result_params: Default::default() })
+        })
+        .ok()?;
+        Some(syms.iter().map(|s| format!("{}|{}|{}", s.name, s.location.uri, s.location.range.start.line)).collect())
+    };
+    let small: HashMap<String, String> = lib.iter().cloned().collect();
+    let mut big = small.clone();
+    for i in 0..50 {
+        big.insert(format!("zzpad/p{:02}", i), "# x\n\n## y\n\n### z\n".to_string());
+    }
+    for (k, _) in lib {
+        let (a, b) = (symbols(&small, k)?, symbols(&big, k)?);
+        if a != b {
+            let lost: Vec<&String> = a.iter().filter(|x| !b.contains(x)).take(3).collect();
+            return Some(format!("document symbols of {:?}: {} entries, {} after 50 unrelated notes were added to the library; lost {:?}", k, a.len(), b.len(), lost));
+        }
+    }
+    None
+}
+
 pub fn check_library(lib: &[(String, String)]) -> Option<String> {
     let st: HashMap<String, String> = lib.iter().cloned().collect();
     let db = dump::catch(|| crate::act::database_with(&st, "", true)).ok()?;
@@ -269,6 +296,12 @@ pub fn run(ctx: &Ctx, model: &mut Model, rep: &mut Report) {
         }
         let lib: Vec<(String, String)> = v["library"].as_array().unwrap().iter().map(|p| (p[0].as_str().unwrap().to_string(), p[1].as_str().unwrap().to_string())).collect();
         rep.evaluations += 1;
+        if v["kind"] == "document_symbols_padding" {
+            if let Some(what) = document_symbols_ignore_unrelated_notes(&lib) {
+                rep.fail(json!({"kind": "document_symbols_padding", "library": lib, "what": what}));
+            }
+            return;
+        }
         if v["kind"] == "search_panics" {
             let st: HashMap<String, String> = lib.iter().cloned().collect();
             if let Ok(db) = dump::catch(|| Database::new(st.clone(), true, MarkdownOptions::default())) {
@@ -326,6 +359,12 @@ pub fn run(ctx: &Ctx, model: &mut Model, rep: &mut Report) {
                         rep.disagree(json!({"op": format!("graph.history part {} at step {}", d.part, d.step), "model": crate::props::c04::decode(&d.model), "impl": crate::props::c04::decode(&d.imp), "history": hist::to_json(&h)}));
                     }
                 }
+            }
+        }
+        if i % 10 == 3 && lib.len() <= 6 {
+            rep.count("document_symbol_padding_cases");
+            if let Some(what) = document_symbols_ignore_unrelated_notes(&lib) {
+                rep.fail(json!({"kind": "document_symbols_padding", "library": lib, "what": what}));
             }
         }
         // search order correspondence: real scores in, order out
